@@ -109,6 +109,9 @@ func (l *c16Ledger) add(b *c16Block) {
 	l.byID[string(b.id)] = b
 }
 
+// addSide stores a block that is not on the trunk: found by id, never by height.
+func (l *c16Ledger) addSide(b *c16Block) { l.byID[string(b.id)] = b }
+
 var errC16NoBlock = errors.New("c16: block not found")
 
 func (l *c16Ledger) GetConsensusConf() ([]byte, error) { return nil, nil }
@@ -343,7 +346,9 @@ type c16TermRec struct {
 // c16Scan consumes (timestamp, entitled?, triple) in increasing time order.
 type c16Scan struct {
 	n, blockNum int64
-	firstWhole  bool // the scan starts at the origin of the schedule: the first observed term is complete
+	periodNs    int64 // configured slot length (one block per period); 0 = not checked
+	firstWhole  bool  // the scan starts at the origin of the schedule: the first observed term is complete
+	runStart    int64 // first instant at which the current entitled triple was observed
 
 	haveLast bool
 	last     c16Triple
@@ -372,6 +377,13 @@ func (s *c16Scan) feed(ts int64, ent bool, tr c16Triple) *c16Fail {
 			case d == 0 && s.gapSince:
 				return c16Failf("contiguous", "slot %+v is entitled at t=%d and again at t=%d with an unentitled instant in between", tr, s.lastTs, ts)
 			}
+		}
+		if !s.haveLast || s.last != tr {
+			s.runStart = ts
+		} else if s.periodNs > 0 && ts-s.runStart >= s.periodNs {
+			// "its configured number of consecutive slots": a slot is one block period long; a longer one lets its
+			// owner produce an extra block (timestamps one period apart) under the same (term, pos, slot)
+			return c16Failf("slot-length", "slot %+v is entitled from t=%d to t=%d: longer than the configured period of %d ns", tr, s.runStart, ts, s.periodNs)
 		}
 		if !s.haveLast || s.last != tr {
 			if len(s.terms) == 0 || s.terms[len(s.terms)-1].term != tr.Term {
@@ -470,7 +482,7 @@ func c16RunTdpos(k c16TdposCase, o *c16Obs) *c16Fail {
 	// A term cannot be configured to last longer than this: the term interval plus, per validator, one
 	// hand-over interval and block_num periods.
 	ub := k.Term + k.ProposerNum*(k.Alternate+k.BlockNum*k.Period)
-	sc := &c16Scan{n: k.ProposerNum, blockNum: k.BlockNum, firstWhole: true}
+	sc := &c16Scan{n: k.ProposerNum, blockNum: k.BlockNum, periodNs: k.Period * c16Ms, firstWhole: true}
 	nEnt, nGap, nAcc, nRej := 0, 0, 0, 0
 	defer func() {
 		o.evals["tdpos-schedule:entitled-instant"] += nEnt
@@ -576,7 +588,7 @@ func c16RunXpoa(k c16XpoaCase, o *c16Obs) *c16Fail {
 		return !(slot < 0 || slot > k.BlockNum || pos >= n)
 	}
 	ub := n * k.BlockNum * k.Period // a round has no configured gaps
-	sc := &c16Scan{n: n, blockNum: k.BlockNum, firstWhole: k.StartMs == 0}
+	sc := &c16Scan{n: n, blockNum: k.BlockNum, periodNs: k.Period * c16Ms, firstWhole: k.StartMs == 0}
 	nEnt, nGap := 0, 0
 	defer func() {
 		o.evals["xpoa-schedule:entitled-instant"] += nEnt
@@ -959,6 +971,15 @@ type c16PowCase struct {
 	Gap     int32        `json:"adjust_height_gap"`
 	Period  int32        `json:"expected_period"`
 	Steps   []c16PowStep `json:"steps"`
+	Fork    *c16PowFork  `json:"fork,omitempty"`
+}
+
+// c16PowFork: after the trunk is grown, a side branch leaves it Back blocks below the tip. Its blocks carry the
+// bits a node whose trunk IS that branch prescribes; the node that holds it as a side branch must judge them alike
+// ("the target that the chain's own history prescribes": the candidate's own ancestors, not the trunk's blocks).
+type c16PowFork struct {
+	Back  int          `json:"back"`
+	Steps []c16PowStep `json:"steps"` // DeltaNs and Frac only
 }
 
 func c16ParseBits(storage []byte) (uint32, error) {
@@ -1114,6 +1135,79 @@ func c16RunPowChain(k c16PowCase, o *c16Obs) *c16Fail {
 			return nil
 		}
 		leg.add(good)
+	}
+	if k.Fork == nil || len(k.Fork.Steps) == 0 || len(leg.byID) != len(leg.chain) {
+		return nil // no fork requested, or two trunk blocks share an id (the stub finds blocks by id)
+	}
+	// side branch: ledger 2 holds the same ancestors with the branch as its trunk
+	f := len(leg.chain) - 1 - k.Fork.Back
+	if f < 0 {
+		f = 0
+	}
+	leg2 := &c16Ledger{byID: map[string]*c16Block{}}
+	for _, b := range leg.chain[:f+1] {
+		leg2.add(b)
+	}
+	pc2 := c16RestartPow(k, leg2, o)
+	if pc2 == nil {
+		return nil
+	}
+	pc2.Start()
+	defer pc2.Stop()
+	parent := leg.chain[f]
+	for si, st := range k.Fork.Steps {
+		h := parent.height + 1
+		_, storage, err := pc2.ProcessBeforeMiner(parent.ts + st.DeltaNs)
+		if err != nil {
+			o.tag("pow-chain:miner-path-error")
+			return nil
+		}
+		prescribed, err := c16ParseBits(storage)
+		if err != nil {
+			return c16Failf("setup", "miner path produced unparsable storage %q", storage)
+		}
+		cands := []uint32{prescribed}
+		if int(h) < len(leg.chain) {
+			if tb, _ := c16ParseBits(leg.chain[h].storage); tb != prescribed {
+				cands = append(cands, tb) // what the trunk block of the same height carries
+				o.tag("pow-fork:bits-differ-from-trunk-at-same-height")
+			}
+		}
+		var next *c16Block
+		for _, bits := range cands {
+			if legacy && bits > 256 {
+				continue
+			}
+			b := mkBlock(parent, h, bits, "frac", st.Frac, parent.ts+st.DeltaNs, "valid", 0, false, si)
+			for v := new(big.Int).SetBytes(b.id); leg.byID[string(b.id)] != nil && v.Sign() > 0; {
+				v.Sub(v, big.NewInt(1)) // ids are unique in the stub ledger: step below the colliding value
+				b.id = v.FillBytes(make([]byte, 32))
+				b.sig = c16MakeSig("valid", hx.Ring[1+si%3], b.id)
+			}
+			if leg.byID[string(b.id)] != nil {
+				return nil
+			}
+			ok2, _ := pc2.CheckMinerMatch(xc, b)
+			ok1, _ := pc.CheckMinerMatch(xc, b)
+			o.eval("pow-fork:judged-on-both-nodes")
+			if ok1 != ok2 {
+				return c16Failf("pow-fork-history", "side-branch block at height %d (fork point height %d, trunk height %d) with bits %#x: verdict %v on the node that holds its ancestors as a side branch, %v on a node whose trunk is that branch (miner path there prescribes %#x)",
+					h, f, len(leg.chain)-1, bits, ok1, ok2, prescribed)
+			}
+			if ok2 && bits == prescribed {
+				next = b
+			}
+		}
+		if next == nil {
+			o.tag("pow-chain:halted-no-acceptable-block")
+			return nil
+		}
+		if h%int64(k.Gap) == 0 && h > int64(k.Gap) && int64(f) < h-1 {
+			o.tag("pow-fork:retarget-on-side-branch")
+		}
+		leg2.add(next)
+		leg.addSide(next)
+		parent = next
 	}
 	return nil
 }
@@ -1553,6 +1647,17 @@ func c16GenPowCase(rt *rapid.T) c16PowCase {
 		}
 		k.Steps = append(k.Steps, st)
 	}
+	if rapid.Bool().Draw(rt, "fork") {
+		fk := &c16PowFork{Back: rapid.IntRange(1, 2*int(k.Gap)+1).Draw(rt, "back")}
+		m := rapid.IntRange(1, 2*int(k.Gap)+2).Draw(rt, "fsteps")
+		for i := 0; i < m; i++ {
+			st := c16PowStep{Frac: rapid.IntRange(0, 1000).Draw(rt, "ffrac")}
+			mult := rapid.SampledFrom([]int64{0, 1, 2, 4, 8, 16, 40, 200}).Draw(rt, "fspeed")
+			st.DeltaNs = mult*int64(k.Period)*sec/8 + int64(rapid.IntRange(0, 999999999).Draw(rt, "fjitter"))
+			fk.Steps = append(fk.Steps, st)
+		}
+		k.Fork = fk
+	}
 	return k
 }
 
@@ -1590,7 +1695,7 @@ func c16PowChain(t *testing.T, c *hx.Collector) {
 
 func TestC16(t *testing.T) {
 	c := hx.NewCollector("C16", "exploration",
-		"(a) slot schedules: every configuration of a small parameter box (tdpos: period, block_num, proposer_num, alternate and term interval, schedule origin; xpoa: period, block_num, validator count) is built through the plugin constructor and minerScheduling is evaluated at every millisecond (several sub-millisecond phases) from the origin until the 4th term begins; the sequence of entitled (term,pos,slot) must be lexicographically non-decreasing, every slot one contiguous interval, and in every complete term every validator position must own exactly block_num slots. (b) acceptance: CheckMinerMatch (BFT off) for every validator, a stranger and the empty proposer on both sides of every slot boundary: accepted => proposer is the one the schedule names at the block's own timestamp; single: proposer x key x signer x signature kind x header id: accepted => configured miner and signature verifies (crypto/ecdsa); PoW: SetCompact/GetCompact against an independent base-256 reference, IsProofed => id <= target, and rapid-generated stub chains grown through the miner path with candidate blocks (bits, hash relative to target, timestamp relative to parent, signature): accepted => hash <= target of its bits, timestamp >= parent's, one bits value per parent equal to what the miner path prescribes, verdict identical on a restarted instance. Non-trivial = timestamp within 1 ms of a slot/term boundary; compact encoding with sign bit or size <= 3; id within 1 of the target; candidate timestamp at/before the parent's on a chain that reached a retarget; single case with at most one wrong ingredient. Distinct = hash of (configuration, boundary instant) / encoding / case input",
+		"(a) slot schedules: every configuration of a small parameter box (tdpos: period, block_num, proposer_num, alternate and term interval, schedule origin; xpoa: period, block_num, validator count) is built through the plugin constructor and minerScheduling is evaluated at every millisecond (several sub-millisecond phases) from the origin until the 4th term begins; the sequence of entitled (term,pos,slot) must be lexicographically non-decreasing, every slot one contiguous interval, and in every complete term every validator position must own exactly block_num slots. (b) acceptance: CheckMinerMatch (BFT off) for every validator, a stranger and the empty proposer on both sides of every slot boundary: accepted => proposer is the one the schedule names at the block's own timestamp; single: proposer x key x signer x signature kind x header id: accepted => configured miner and signature verifies (crypto/ecdsa); PoW: SetCompact/GetCompact against an independent base-256 reference, IsProofed => id <= target, and rapid-generated stub chains grown through the miner path with candidate blocks (bits, hash relative to target, timestamp relative to parent, signature): accepted => hash <= target of its bits, timestamp >= parent's, one bits value per parent equal to what the miner path prescribes, verdict identical on a restarted instance, and - for blocks of a generated side branch - identical on a node whose trunk is that branch (the target depends on the candidate's own ancestors only). Non-trivial = timestamp within 1 ms of a slot/term boundary; compact encoding with sign bit or size <= 3; id within 1 of the target; candidate timestamp at/before the parent's on a chain that reached a retarget; single case with at most one wrong ingredient. Distinct = hash of (configuration, boundary instant) / encoding / case input",
 		"validator sets are the configured initial ones (block height < start height + 3, so no vote / contract state is consulted)",
 		"chained-BFT is off (no bft_config): quorum-certificate checks belong to C14",
 		"the retarget rule itself is not prescribed by the statement: the check demands that the accepted bits are a function of the parent chain (unique, equal on miner and validator path, independent of instance state), not a particular formula",
